@@ -38,6 +38,7 @@ package storage
 // behind), and always yields a storage whose maps exist.
 //@ func NewJSONFileStorage
 //@   callsite os.ReadFile reads-only-the-state-file [C18]: arg0 == filename
+//@   ensures unreadable-state-file-is-reported [C18]: result1 == nil ==> err == nil || errIs(err, os.ErrNotExist)
 //@   ensures maps-exist [C18,C20]: result1 == nil ==> result0 != nil && result0.MemStorage.routers != nil && result0.MemStorage.mappings != nil
 //@   invariant 1 only-verified-records-so-far [C01]: s != nil && s.MemStorage.routers != nil && (forall ip netip.Addr :: has(s.MemStorage.routers, ip) ==> s.MemStorage.routers[ip] != nil && s.MemStorage.routers[ip].Address != nil && s.MemStorage.routers[ip].Address.IP == ip && s.MemStorage.routers[ip].Address.verified)
 //@   ensures loaded-records-hold-verified-identities [C01]: result1 == nil ==> (forall ip netip.Addr :: has(result0.MemStorage.routers, ip) ==> result0.MemStorage.routers[ip] != nil && result0.MemStorage.routers[ip].Address != nil && result0.MemStorage.routers[ip].Address.IP == ip && result0.MemStorage.routers[ip].Address.verified)
